@@ -91,8 +91,9 @@ func inComplete(prog []string) bool {
 
 func boundedScopes() []scope {
 	if evid.Thorough() {
-		// measured: 2x3<=5: 1.2e5, 3x2<=4: 7.0e5, 3x3<=3: 6.4e6, 4x2<=3: 1.5e7
-		return []scope{{2, 3, 6}, {3, 2, 4}, {4, 1, 4}, {3, 3, 3}, {4, 2, 3}, {4, 3, 2}}
+		// measured: 2x3<=6: 2.6e5, 3x2<=4: 7.0e5, 4x1<=4: 1.9e5, 3x3<=3: 6.4e6, 4x2<=3: 1.5e7,
+		// 4x3<=1: 3.1e6 (4x3<=2 is 7e7: left to the random check)
+		return []scope{{2, 3, 8}, {3, 2, 5}, {4, 1, 5}, {3, 3, 3}, {4, 2, 3}, {4, 3, 1}}
 	}
 	// measured: 2x3<=4: 5.2e4, 3x2<=3: 1.5e5, 4x1<=3: 4.8e4, 3x3<=2: 7.4e5, 4x2<=2: 1.4e6
 	return []scope{{2, 3, 4}, {3, 2, 3}, {4, 1, 3}, {3, 3, 2}, {4, 2, 2}}
